@@ -35,7 +35,7 @@ ASSUMPTIONS = [
     'trusted_gateways=None (the documented default: everybody may forward) is not asserted',
     'workload restriction: a header is never both structurally malformed and built for an absent user with password "None" (two known defects would chain in the twin)',
 ]
-REQUIRED = ['ref_selfcheck_ok', 'direct_accept_digest_qop_auth', 'direct_accept_digest_rfc2069', 'direct_accept_basic_encrypt_str',
+REQUIRED = ['second_check_on_same_request', 'ref_selfcheck_ok', 'direct_accept_digest_qop_auth', 'direct_accept_digest_rfc2069', 'direct_accept_basic_encrypt_str',
             'direct_accept_basic_encrypt_callable', 'users_callable_dict', 'users_callable_lookup',
             'refused_returning_false', 'refused_by_exception', 'refused_wrong_realm', 'refused_unknown_user', 'refused_wrong_password',
             'refused_tampered_response', 'refused_field_digest_mismatch', 'malformed_digest_header_sent', 'unknown_scheme_sent',
@@ -286,16 +286,40 @@ def observe_auth_direct(case):
     except Exception as e:
         obs['idiom'] = 'raised:' + type(e).__name__
     obs['idiom_login'] = req.login
+    # 4. the same request object checked twice: first against ANOTHER area's table/realm in which these credentials do verify (a
+    #    site-wide filter), then against the configured one - the second verdict must not depend on the first
+    h = case['hdr']
+    obs['second_check'] = None
+    if h and 'user' in h and 'password' in h and 'raw' not in h:
+        req, resp = fresh()
+        other_realm = h.get('realm', realm) if h.get('scheme') == 'digest' else realm + '-other-area'
+        other_users = {h['user']: h['password']}
+        try:
+            first = tools.check_auth(req, resp, other_realm, other_users, *((str,) if h.get('scheme') == 'basic' else ()))
+        except Exception:
+            first = None
+        if first is True:
+            users, extra = build_config(case)
+            try:
+                obs['second_check'] = classify(tools.check_auth(req, resp, realm, users, *extra))
+            except Exception as e:
+                obs['second_check'] = 'raised:' + type(e).__name__
+            obs['second_login'] = req.login
     for s in socks:
         s.close()
     signals = {
+        'check_auth truthy after an earlier successful check against another table/realm':
+            obs['second_check'] is not None and (obs['second_check'] == 'True' or obs['second_check'].startswith('truthy:')) and
+            not (obs['check_auth'] == 'True'),
         'check_auth truthy': obs['check_auth'] == 'True' or obs['check_auth'].startswith('truthy:'),
         'request.login set': bool(obs['login']) or bool(obs['xxx_login']) or bool(obs['idiom_login']),
         'xxx_auth let it through': obs['xxx_auth'] == 'None',
         'idiom returned the secret': obs['idiom'] == 'SECRET',
     }
     obs['authenticated_any'] = sorted(k for k, v in signals.items() if v)
-    obs['authenticated_all'] = all(signals.values()) and obs['login'] == case['hdr']['user'] if case['hdr'] and 'user' in case['hdr'] else False
+    first_key = 'check_auth truthy after an earlier successful check against another table/realm'
+    obs['authenticated_all'] = (all(v for k, v in signals.items() if k != first_key) and obs['login'] == case['hdr']['user']
+                                if case['hdr'] and 'user' in case['hdr'] else False)
     return obs
 
 
@@ -378,6 +402,8 @@ def run_auth(case):
             marks.add('e2e_challenge_401')
     else:
         obs = observe_auth_direct(case)
+        if obs.get('second_check') is not None:
+            marks.add('second_check_on_same_request')
         authed_any = bool(obs['authenticated_any'])
         authed_all = obs['authenticated_all']
     tag = '%s/%s' % (h['scheme'] if h and 'scheme' in h else ('raw' if h else 'none'), case['idiom'])
